@@ -1,0 +1,7 @@
+//go:build !verif
+
+package websocket
+
+// verifEvent is a hook of the verification harness in /verif; without the "verif" build tag it is
+// an empty function that the compiler inlines away.
+func verifEvent(c *Conn, kind string, obj interface{}) {}
